@@ -128,7 +128,14 @@ MemberSETExpression * MemberSETExpression::parse(Parser& p, Context& ctx, Expres
   /* item no MUST be constant */
   if (t->code != TOKEN_INTEGER)
     throw ParseError(EXC_PARSE_BAD_MEMB_CALL_S, KEYWORDS[BTM_SET], t);
-  unsigned item_no = (unsigned)std::stoul(t->text, nullptr, 10);
+  /* the item number must fit an unsigned: std::stoul throws a foreign
+   * exception beyond 2^64, and larger values than UINT_MAX were truncated */
+  unsigned long item_ul = 0;
+  try { item_ul = std::stoul(t->text, nullptr, 10); }
+  catch (std::out_of_range&) { throw ParseError(EXC_PARSE_OUT_OF_INDICE, t->text.c_str(), t); }
+  if (item_ul > 0xffffffffUL)
+    throw ParseError(EXC_PARSE_OUT_OF_INDICE, t->text.c_str(), t);
+  unsigned item_no = (unsigned)item_ul;
 
   try
   {
